@@ -17,6 +17,7 @@ from engine import build
 from . import common as C
 from .common import ctx_for
 from . import taylor
+from engine import fpcheck
 
 HARNESS = C.Harness("h_tan.cpp", assertions=True, extra_defines=["VS_STUB_LARGE_INVERSE"])
 BRACKET = C.Harness("h_bracket.cpp", assertions=True)
@@ -104,6 +105,7 @@ def check_group(rep, g, tier, seed):
                 c.eq("ljac_is_left_differential_of_exp/dt%d" % k, d, np.dot(sp.hat_h(list(Jl[:, k])), TX), "DERIV")
             c.eq("ljac_is_rjac_of_minus_t", Jl, c.out("rjac_neg"))
         taylor.with_taylor(c, TAU, obl)
+        fpcheck.compare(rep, c, ["rjac", "ljac"], TAU, "jacs")
 
     # ---- inverses
     for c in _feasible_paths(rep, HARNESS, g, "tan_inv", [("t", "T")], seed, "inv"):
@@ -119,6 +121,8 @@ def check_group(rep, g, tier, seed):
                 taylor.with_taylor(c, TAU, lambda c=c, nm=nm, inv=inv, n=n: (
                     c.eq("%s_times_%s" % (nm, inv), np.dot(c.out(nm), c.out(inv)), _eye(c.alg, n)),
                     c.eq("%s_times_%s" % (inv, nm), np.dot(c.out(inv), c.out(nm)), _eye(c.alg, n))))
+
+        fpcheck.compare(rep, c, ["rjac", "ljac", "rjacinv", "ljacinv"], TAU, "inverses")
 
     # ---- Adj(exp t) * rjac == ljac
     for c in _feasible_paths(rep, HARNESS, g, "tan_adj", [("t", "T")], seed, "adj_exp"):
